@@ -209,7 +209,7 @@ def get_facts(config="dev", repo=REPO, verbose=False):
         return outdir, {"hash": h, "cached": False, "wall_s": time.time() - t0}
 
 
-def _prune(keep=200, min_age_s=3600):
+def _prune(keep=120, min_age_s=3600):
     """Bound the fact cache (about 3 MB per analysed tree). Entries younger than an hour are never
     removed: a concurrent check (self-test slots run in parallel) may still be reading them."""
     base = os.path.join(CACHE, "facts")
